@@ -112,3 +112,102 @@ class DiffContract(FunctionContract):
 
 
 CONTRACTS = [ShiftContract(), LagContract(), LeadContract(), DiffContract()]
+
+
+# ---------------------------------------------------------------------------------------------------------------
+# VectorContainer.eval: assembly of the evaluation namespace (precedence, no mutation of the package table)
+# ---------------------------------------------------------------------------------------------------------------
+class EvalNamespace(FunctionContract):
+    """eval() hands Python's eval an expression and a locals mapping in which caller-supplied locals override variables, which override the
+    built-in helpers; the package-level helper table is deep-copied, never written; NameError becomes AttributeError naming the name."""
+    qualname = 'fsic.core.containers.VectorContainer.eval'
+    props = ('C16',)
+
+    def scenarios(self):
+        return ['plain', 'with-locals', 'custom-builtins', 'name-error', 'backtick']
+
+    def setup(self, interp, scenario):
+        import builtins as _b
+        import fsic.functions as F
+        from fsic.core.containers import VectorContainer
+        from pyvc.interp import PyRaise
+        from pyvc.values import SExc, SObj, SStr
+        ctx = interp.ctx
+        e = {'scenario': scenario, 'eval_calls': [], 'resolve_calls': []}
+        # a variable named like a helper ('lag') and one named like nothing else
+        series = {'X': object(), 'lag': object()}
+        e['series'] = series
+        obj = SObj(VectorContainer, {'index': ['X', 'lag'], 'span': [1, 2]}, label='c')
+        e['table_before'] = dict(F.builtins)
+        e['table_id'] = id(F.builtins)
+
+        def getitem(interp_, o, args, kwargs, node):
+            return series[args[0]]
+
+        def resolve(interp_, o, args, kwargs, node):
+            e['resolve_calls'].append(args[0])
+            return 'RESOLVED'
+
+        def closest(interp_, o, args, kwargs, node):
+            e['closest_arg'] = args[0]
+            return ['X']
+
+        class EvalSpec:
+            def vc_call(self_, interp_, args, kwargs, node):
+                e['eval_calls'].append(list(args))
+                if scenario == 'name-error':
+                    exc = NameError("name 'Q' is not defined", name='Q')
+                    raise PyRaise(exc)
+                return 'RESULT'
+        interp.registry.set_calls({'fsic.core.containers.VectorContainer.__getitem__': getitem,
+                                   'fsic.core.containers.VectorContainer._resolve_expression_indexes': resolve,
+                                   'fsic.core.containers.VectorContainer.get_closest_match': closest})
+        # the builtin eval is replaced by a recording contract (opaque effectful external)
+        import pyvc.libspec as L
+        L._MODELS[_b.eval] = lambda interp_, a, k, n: EvalSpec().vc_call(interp_, a, k, n)
+        L._MODELS[_b.eval].always = True
+        e['locals'] = {'X': object(), 'k': 2} if scenario == 'with-locals' else None
+        e['builtins'] = {'lag': object(), 'mine': object()} if scenario == 'custom-builtins' else None
+        kw = {}
+        if e['locals'] is not None:
+            kw['locals'] = e['locals']
+        if e['builtins'] is not None:
+            kw['builtins'] = e['builtins']
+        e['expr'] = 'X[`1`] + lag' if scenario == 'backtick' else 'X + lag'
+        return Call([e['expr']], kw, self_obj=obj, entry=e)
+
+    def post(self, interp, scenario, call, out):
+        import fsic.functions as F
+        from pyvc.interp import exc_class
+        ctx = interp.ctx
+        e = call.entry
+        ctx.prove(z3.BoolVal(id(F.builtins) == e['table_id'] and dict(F.builtins) == e['table_before']), 'package_level_helper_table_is_not_altered', 'frame')
+        ctx.prove(z3.BoolVal(len(e['eval_calls']) == 1), 'expression_evaluated_exactly_once', 'ensures')
+        if not e['eval_calls']:
+            return
+        args = e['eval_calls'][0]
+        expr, ns = args[0], args[2] if len(args) > 2 else None
+        if scenario == 'backtick':
+            ctx.prove(z3.BoolVal(e['resolve_calls'] == [e['expr']] and expr == 'RESOLVED'), 'backticked_expression_is_rewritten_before_evaluation', 'ensures')
+        else:
+            ctx.prove(z3.BoolVal(expr == e['expr'] and not e['resolve_calls']), 'expression_without_backticks_is_evaluated_unchanged', 'ensures')
+        ok = isinstance(ns, dict)
+        ctx.prove(z3.BoolVal(ok), 'evaluation_namespace_is_a_mapping', 'ensures')
+        if ok:
+            ctx.prove(z3.BoolVal(ns is not F.builtins), 'namespace_is_not_the_package_level_table_itself', 'own')
+            want = dict(e['builtins']) if e['builtins'] is not None else dict(F.builtins)
+            want.update(e['series'])
+            if e['locals'] is not None:
+                want.update(e['locals'])
+            same = set(ns) == set(want) and all(ns[k] is want[k] or (k in F.builtins and e['builtins'] is None and k not in e['series'] and (e['locals'] is None or k not in e['locals']))
+                                                for k in want)
+            ctx.prove(z3.BoolVal(same), 'caller_locals_override_variables_which_override_the_helpers', 'ensures',
+                      note=str({k: ('series' if ns.get(k) is e['series'].get(k) else 'other') for k in ('X', 'lag') if k in ns}))
+        if out.kind == 'raise':
+            ctx.prove(z3.BoolVal(scenario == 'name-error' and exc_class(out.exc) is AttributeError and e.get('closest_arg') == 'Q'),
+                      'undefined_name_is_reported_as_AttributeError_naming_it', 'raises')
+        else:
+            ctx.prove(z3.BoolVal(scenario != 'name-error' and out.value == 'RESULT'), 'returns_what_eval_computes', 'ensures')
+
+
+CONTRACTS.append(EvalNamespace())
